@@ -496,6 +496,19 @@ theorem apply_valid_or_rejected (S : Schema) (st : Step) (doc : Node)
     | valueError => exact .inr (.inl rfl)
     | internal => exact absurd h (apply_no_internal S st doc hdoc hwf)
 
+/-- both sentences of C01 with the payload condition on the slice alone (`SliceValid`; `StepWF` adds `Slice.wf`) -/
+theorem apply_valid_or_rejected' (S : Schema) (st : Step) (doc : Node)
+    (hd : Valid S doc) (hdoc : IsElem doc) (hp : SliceValid S st) (hwf : StepWF st = true) :
+    S.apply st doc = .error .failed ∨ S.apply st doc = .error .valueError ∨
+      ∃ doc', S.apply st doc = .ok doc' ∧ Valid S doc' := by
+  cases h : S.apply st doc with
+  | ok doc' => exact .inr (.inr ⟨doc', rfl, apply_valid' S st doc doc' hd hp h⟩)
+  | error e =>
+    cases e with
+    | failed => exact .inl rfl
+    | valueError => exact .inr (.inl rfl)
+    | internal => exact absurd h (apply_no_internal S st doc hdoc hwf)
+
 /-! ### The hypotheses are needed (and satisfiable)
 
   Each hypothesis of `apply_no_internal`, dropped, admits an internal error — in the model (the
